@@ -346,6 +346,17 @@ func (group *Group) delRtspPubSession(session *rtsp.PubSession) {
 func (group *Group) delPullSession(session base.IObject) {
 	Log.Debugf("[%s] [%s] del PullSession from group.", group.UniqueKey, session.UniqueKey())
 
+	// 注意，这个pull session有可能从来没有成为过group的输入：拉流失败，或者拉流成功前已经有其他输入（比如推流）进来了。
+	// 此时只结束本次拉流尝试，不能调用delIn，否则会把当前真正的输入的状态清掉。
+	isIn := (group.pullProxy.rtmpSession != nil && base.IObject(group.pullProxy.rtmpSession) == session) ||
+		(group.pullProxy.rtspSession != nil && base.IObject(group.pullProxy.rtspSession) == session)
+	if !isIn {
+		if !group.hasPullSession() {
+			group.pullProxy.isSessionPulling = false
+		}
+		return
+	}
+
 	group.resetRelayPullSession()
 	group.delIn()
 }
